@@ -23,6 +23,8 @@ func init() { runners["C11"] = runC11 }
 
 func isCloseEv(ev int) bool { return ev >= evBCo }
 
+const evTaskDone = -2 // log marker (not an event): written right before the DoneTask of a task accepted up front
+
 var commitWord = []int{evBC, evBCo, evCo, evACo, evAC}
 var rollbackWord = []int{evBC, evBR, evR, evAR, evAC}
 
@@ -52,6 +54,7 @@ type l2in struct {
 	createdAt  []int // number of closers started when the scope was created
 	sequential bool
 	failing    map[int]bool // listener ids that return an error
+	preTasks   []int        // concurrent runs: tasks accepted before any Close was called; each leaves an evTaskDone marker
 	strict     bool         // no misuse: DoneTask only for accepted tasks
 }
 type closerView struct {
@@ -101,6 +104,11 @@ func l2Log(in l2in, fail func(oracle, what string)) {
 			if !sameInts(probeSeq, commitWord) && !sameInts(probeSeq, rollbackWord) {
 				fail("event_grammar", fmt.Sprintf("scope %d closed: root probes saw %v, want the full commit or rollback word", s, probeSeq))
 			}
+			// errors never disappear: a scope that rolled back held an error when it decided, so its
+			// Close reports one - under any schedule
+			if c.status == 2 && sameInts(probeSeq, rollbackWord) {
+				fail("result", fmt.Sprintf("scope %d fired the rollback triple, yet its Close returned nil", s))
+			}
 			if (c.status == 3) != (c.errAfter > 0) && in.sequential {
 				fail("result", fmt.Sprintf("scope %d: Close returned error=%v with %d errors held", s, c.status == 3, c.errAfter))
 			}
@@ -120,6 +128,17 @@ func l2Log(in l2in, fail func(oracle, what string)) {
 				if ev == evBCo && probeNErr[k] != 0 && in.sequential {
 					fail("commit_xor_rollback", fmt.Sprintf("scope %d committed with %d errors", s, probeNErr[k]))
 				}
+			}
+		}
+		if decide >= 0 && in.preTasks != nil && in.preTasks[s] > 0 {
+			seen := 0
+			for i, e := range in.log {
+				if e.Ev == evTaskDone && e.By == s && i < decide {
+					seen++
+				}
+			}
+			if seen < in.preTasks[s] {
+				fail("waits", fmt.Sprintf("scope %d passed its wait (log index %d) when only %d of the %d tasks accepted before its Close had reached their DoneTask", s, decide, seen, in.preTasks[s]))
 			}
 		}
 		if decide >= 0 && in.strict {
@@ -265,6 +284,17 @@ func runC11Conc(o *Out, rng *RNG) {
 	// programs
 	g := 2 + rng.Intn(7)
 	progs := make([][]concOp, g)
+	// tasks accepted before anything runs; some program finishes each (a marker goes into the log
+	// right before the DoneTask): the scope must not decide before the marker
+	pre := make([]int, len(w.scopes))
+	for k := rng.Intn(4); k > 0; k-- {
+		s := rng.Intn(len(w.scopes))
+		if w.scopes[s].AddTasks(1) == nil {
+			pre[s]++
+			gi := rng.Intn(g)
+			progs[gi] = append(progs[gi], concOp{K: "pretask_done", S: s})
+		}
+	}
 	for s := range w.scopes { // every scope is closed exactly once, by some goroutine
 		gi := rng.Intn(g)
 		progs[gi] = append(progs[gi], concOp{K: "close", S: s})
@@ -335,6 +365,9 @@ func runC11Conc(o *Out, rng *RNG) {
 							closers = append(closers, cv)
 							mu.Unlock()
 						}()
+					case "pretask_done":
+						w.record(evTaskDone, op.S, 0, -1)
+						sc.DoneTask()
 					case "task":
 						if sc.AddTasks(1) == nil {
 							pending = append(pending, op.S)
@@ -380,7 +413,7 @@ func runC11Conc(o *Out, rng *RNG) {
 		closers[i].startedBefore = 1 << 30
 	}
 	in := l2in{log: log, nScopes: len(w.scopes), probeRoot: probe, rootOf: rootsOf(w.scopePar), regOn: w.regOn,
-		createdAt: w.createdAt, closers: closers, sequential: false, strict: true}
+		createdAt: w.createdAt, closers: closers, sequential: false, strict: true, preTasks: pre}
 	l2Log(in, func(oracle, what string) { o.Fail(oracle, "concurrent run: "+what, oracle, desc) })
 	o.CountEval(fmt.Sprintf("conc:%v:%v", setup, progs), g >= 2 && len(w.scopes) >= 2)
 	o.Stat("conc_runs")
@@ -401,7 +434,10 @@ func runC11(o *Out, rng *RNG, tier string, replay string) {
 		"(NewChild shared/isolated up to 8 scopes and depth 4, On with 25% failing listeners, AddTasks, DoneTask, AppendError, Kill, Stop, " +
 		"Close in its own goroutine, IsDone, Err, Wait), optionally drained (all tasks done, every scope closed children first); a misuse " +
 		"stream adds second Close / DoneTask without task / signalling or On on a closed scope. Non-trivial: at least one Close returned; " +
-		"distinct by history. Concurrent runs (2..8 goroutines) are checked by the L2 oracles only."
+		"distinct by history. A third of the children are made by gio.NewChildIOContext and closed through IOContext.Close, a quarter of the " +
+		"AddTasks calls carry a delta of 2-3 (emitted to Coq as single additions), 40% of the random listeners join an earlier listener's " +
+		"(scope, event). Concurrent runs (2..8 goroutines, with tasks accepted before the start) are checked by the L2 oracles only; " +
+		"L2 families: wait-recheck, gio probe, Close racing Close on one scope, Close + Wait callers parked on one scope."
 	thorough := tier == "thorough"
 	if replay != "" {
 		if r, ok := replayHistory(replay); ok {
@@ -423,11 +459,17 @@ func runC11(o *Out, rng *RNG, tier string, replay string) {
 	hangs := 0
 	for i := 0; i < nSeq; i++ {
 		misuse := rng.Chance(20)
-		r := runSeq(genNext(rng, genCfg{listeners: true, misuse: misuse, maxOps: 5 + rng.Intn(26), drain: rng.Chance(65)}, o), 600)
+		r := runSeq(genNext(rng, genCfg{listeners: true, misuse: misuse, maxOps: 5 + rng.Intn(26), drain: rng.Chance(65), wide: true}, o), 600)
 		for _, p := range r.Hist {
 			o.Stat("op_" + p.K)
 			if p.K == "newchild" && p.Iso {
 				o.Stat("op_newchild_isolated")
+			}
+			if p.K == "newchild" && p.Via == 1 {
+				o.Stat("op_newchild_gio")
+			}
+			if p.K == "add" && p.N > 1 {
+				o.Stat("op_add_delta")
 			}
 			if p.K == "on" && p.Fail >= 0 {
 				o.Stat("failing_listeners")
@@ -470,6 +512,14 @@ func runC11(o *Out, rng *RNG, tier string, replay string) {
 		nRecheck = 6000
 	}
 	c11WaitRecheck(o, rng, nRecheck)
+
+	c11GioProbe(o)
+	nRace, nMulti := 600, 150
+	if thorough {
+		nRace, nMulti = 20000, 3000
+	}
+	c11CloseRace(o, rng, nRace)
+	c11MultiWaiter(o, rng, nMulti)
 
 	nConc := 1500
 	if thorough {
